@@ -2,6 +2,7 @@
 import os
 
 import common as C
+import optsdom
 import validout
 import c1113x
 
@@ -14,7 +15,8 @@ def build(ctx):
     ctx.log("translate", out)
     if not ok:
         ctx.diag.append("translator failed: " + out[-300:])
-    C.prove(ctx, ["Props/C13.v", "Props/C13Valid.v", "Props/C13General.v"], ["Oblig/C13Obl.v", "Oblig/ValidRevObl.v", "Oblig/C13GenObl.v"])
+    C.prove(ctx, ["Props/C13.v", "Props/C13Valid.v", "Props/C13General.v", "Props/C13Opts.v"],
+            ["Oblig/C13Obl.v", "Oblig/ValidRevObl.v", "Oblig/C13GenObl.v", "Oblig/OptSitesObl.v"])
     ok, out = C.build_harness()
     ctx.log("go build", out)
     if not ok:
@@ -80,11 +82,14 @@ def run(ctx):
     ctx.add_summary(c1113x.run(ctx, "rev"), "C13 general (gen files)")
     summ = oracle(ctx, ctx.scale(8000, 150000))
     ctx.add_summary(summ, "File.Reversal oracle")
+    optsdom.run(ctx, "C13")
     if ctx.tier == "thorough":
         ctx.cov["forbidden_vernacular"] = C.forbidden_vernacular()
 
 
 def replay(path):
+    if optsdom.is_case(path):
+        return optsdom.replay(path)
     if c1113x.is_case(path):
         return c1113x.replay(path)
     ok, out = C.build_harness()
